@@ -202,6 +202,48 @@ func main() {
 			}
 		}
 	}
+	// detaching one of three tracers in the middle of a workload: the other two keep seeing every
+	// transition, the detached one sees nothing more
+	for det := 0; det < 3; det++ {
+		total++
+		ctx, cancel := context.WithCancel(context.Background())
+		m := am.New(ctx, am.Schema{"A": {}, "B": {Multi: true}, "C": {Remove: am.S{"A"}}}, &am.Opts{Id: "verif-c14"})
+		logs := make([][]ev, 3)
+		for i := range logs {
+			m.BindTracer(&tr{TracerNoOp: &am.TracerNoOp{Id: fmt.Sprintf("t%d", i)}, log: &logs[i]})
+		}
+		m.Add1("A", nil)
+		m.Add1("B", nil)
+		if err := m.DetachTracer(fmt.Sprintf("t%d", det)); err != nil {
+			panic(err)
+		}
+		at := len(logs[det])
+		m.Add1("B", nil)
+		m.Add1("C", nil)
+		m.Remove1("B", nil)
+		cancel()
+		bad := ""
+		for i := range logs {
+			if i == det {
+				if len(logs[i]) != at {
+					bad = fmt.Sprintf("the detached tracer t%d still received %d events", i, len(logs[i])-at)
+				}
+				continue
+			}
+			ends := 0
+			for _, e := range logs[i] {
+				if e.kind == "end" {
+					ends++
+				}
+			}
+			if ends != 5 {
+				bad = fmt.Sprintf("tracer t%d (still bound) saw %d of 5 transitions after t%d was detached", i, ends, det)
+			}
+		}
+		if bad != "" {
+			failing = append(failing, fmt.Sprintf("three tracers, detach t%d after two transitions => %s", det, bad))
+		}
+	}
 	json.NewEncoder(os.Stdout).Encode(map[string]any{"failing": failing, "total": total})
 }
 `
